@@ -121,7 +121,7 @@ def tie(ctx):
                         A["variants"][fn].append((A["body_seen"][fn][b], funcs[fn]))
                         stats["distinct_bodies"] += 1
                 if not cfg:
-                    default_so[ns] = (dest, [cf], eqs)
+                    default_so[ns] = (dest, [cf], eqs, {n: cgen.signature(funcs[n]) for n in funcs})
         for (ns, eqs, cf, _) in parts:
             A = acc[ns]
             src = cgen.emit_set(ns, eqs, A["variants"], A["tables"])
@@ -144,7 +144,7 @@ def tie(ctx):
     for ns in SETS:
         if ns not in default_so:
             continue
-        dest, files, eqs = default_so[ns]
+        dest, files, eqs, csig = default_so[ns]
         sid = ns
         so = os.path.join(dest, "lib_%s.so" % ns)
         rc, out = _sh(["gcc", "-O1", "-ffp-contract=off", "-fPIC", "-shared", "-I", inc, "-o", so] + [os.path.join(dest, f) for f in files] + ["-lm"])
@@ -158,8 +158,17 @@ def tie(ctx):
                 wk = getattr(lib, fn + "_work")
             except AttributeError:
                 report("functions:%s:so:%s" % (sid, fn), "entry point %s missing from the compiled object" % fn, {"set": sid, "function": fn}); continue
+            # argument / result layout first: calling a function whose layout differs would read and write out of bounds
+            want_sig = cgen.signature(cgen.sx_ir(f))
+            if csig.get(fn) != want_sig:
+                report("layout:%s.%s" % (ns, fn), "argument / result layout of the C function differs from the symbolic function (names, shapes or nonzero counts)",
+                       {"set": sid, "function": fn, "c": csig.get(fn), "symbolic": want_sig}, obligation="theorem:C09.%s.c_table_eq" % ns)
+                continue
             sz = [ctypes.c_longlong(0) for _ in range(4)]
             wk(*[ctypes.byref(s) for s in sz])
+            if sz[0].value < f.n_in() or sz[1].value < f.n_out():
+                report("layout:%s.%s:work" % (ns, fn), "work sizes of the C function are too small for its own arguments", {"set": sid, "function": fn})
+                continue
             nnz_in = [f.nnz_in(i) for i in range(f.n_in())]
             nnz_out = [f.nnz_out(i) for i in range(f.n_out())]
 
